@@ -29,7 +29,7 @@ def budget(tier):
     ex = int(os.environ.get("VERIF_EXAMPLES", "0"))
     if tier == "quick":
         return dict(shards=16, examples=ex or 25, shrink_calls=40, shard_timeout=1500, time_budget=110)
-    return dict(shards=16, examples=ex or 500, shrink_calls=300, shard_timeout=6 * 3600, time_budget=3 * 3600)
+    return dict(shards=16, examples=ex or 4000, shrink_calls=300, shard_timeout=6 * 3600, time_budget=1500)
 
 
 @st.composite
